@@ -25,7 +25,7 @@ def run(model=None, pkg_path=None):
     model = model or os.path.join(common.REPO, "generator", "lsp.json")
     pkg_path = pkg_path or os.path.join(common.REPO, "packages", "python")
     key = common.file_hash(common.tree_files(pkg_path, (".py",)) + [model, os.path.join(common.SPEC, "PyImage.tla"), os.path.join(common.SPEC, "LspMeta.tla"),
-                                                                    os.path.join(common.VERIF, "harness", "introspect.py")])[:24]
+                                                                    os.path.join(common.VERIF, "harness", "introspect.py"), os.path.join(common.VERIF, "harness", "check_image.py")])[:24]
     cpath = os.path.join(common.CACHE, "image-" + key + ".json")
     if os.path.exists(cpath):
         return json.load(open(cpath))
